@@ -1073,8 +1073,11 @@ func containsPrefix(table *table.Table, prefix []byte) bool {
 		return bytes.HasPrefix(ti.Key(), prefix)
 	}
 
-	if bytes.Compare(prefix, smallValue) > 0 &&
-		bytes.Compare(prefix, largeValue) < 0 {
+	// Compare with the user keys: smallValue and largeValue end in an 8-byte
+	// timestamp, whose bytes would otherwise take part in the comparison (a
+	// smallest key "a" would sort after the prefix "ab").
+	if bytes.Compare(prefix, y.ParseKey(smallValue)) > 0 &&
+		bytes.Compare(prefix, y.ParseKey(largeValue)) < 0 {
 		// There may be a case when table contains [0x0000,...., 0xffff]. If we are searching for
 		// k=0x0011, we should not directly infer that k is present. It may not be present.
 		return isPresent()
